@@ -73,8 +73,8 @@ type c04env struct {
 	base     map[string]uint64 // value written before the schedule started
 }
 
-// satAdd is the documented arithmetic of counter values: sums saturate.
-func satAdd(a, b uint64) uint64 {
+// vfSatAdd is the documented arithmetic of counter values: sums saturate.
+func vfSatAdd(a, b uint64) uint64 {
 	if a+b < a {
 		return ^uint64(0)
 	}
@@ -129,10 +129,10 @@ func (e *c04env) check(final bool) {
 	e.checks++
 	cf, err := verifref.ParseCounterFile(e.mon)
 	if err != nil {
-		if !final && strings.Contains(err.Error(), "bad prefix") && allZero(e.mon[:28]) {
+		if !final && strings.Contains(err.Error(), "bad prefix") && vfAllZero(e.mon[:28]) {
 			return // creation in progress (size extended before header) cannot happen, but be exact: judged at the end
 		}
-		e.violate("malformed:"+layoutClass(err), "shared counter file is not well-formed: "+err.Error())
+		e.violate("malformed:"+vfLayoutClass(err), "shared counter file is not well-formed: "+err.Error())
 		return
 	}
 	if cf.Limit < e.lastLim {
@@ -150,8 +150,8 @@ func (e *c04env) check(final bool) {
 		}
 	}
 	for n, b := range e.base {
-		begun[n] = satAdd(b, begun[n])
-		done[n] = satAdd(b, done[n])
+		begun[n] = vfSatAdd(b, begun[n])
+		done[n] = vfSatAdd(b, done[n])
 	}
 	seen := map[string]bool{}
 	for _, rec := range cf.Records {
@@ -161,20 +161,20 @@ func (e *c04env) check(final bool) {
 		}
 		b, ok := begun[rec.Name]
 		if !ok {
-			e.violate("foreign-record", fmt.Sprintf("file contains a record %q nobody created", trunc40(rec.Name)))
+			e.violate("foreign-record", fmt.Sprintf("file contains a record %q nobody created", vfTrunc40(rec.Name)))
 			continue
 		}
 		if rec.Value > b {
-			e.violate("overcount", fmt.Sprintf("counter %q = %d exceeds increments begun %d", trunc40(rec.Name), rec.Value, b))
+			e.violate("overcount", fmt.Sprintf("counter %q = %d exceeds increments begun %d", vfTrunc40(rec.Name), rec.Value, b))
 		}
 		if rec.Value < e.lastVal[rec.Name] {
-			e.violate("value-decreased", fmt.Sprintf("counter %q went from %d to %d", trunc40(rec.Name), e.lastVal[rec.Name], rec.Value))
+			e.violate("value-decreased", fmt.Sprintf("counter %q went from %d to %d", vfTrunc40(rec.Name), e.lastVal[rec.Name], rec.Value))
 		}
 		e.lastVal[rec.Name] = rec.Value
 	}
 	for n, v := range e.lastVal {
 		if !seen[n] && v > 0 {
-			e.violate("record-vanished", fmt.Sprintf("counter %q (last value %d) is no longer reachable", trunc40(n), v))
+			e.violate("record-vanished", fmt.Sprintf("counter %q (last value %d) is no longer reachable", vfTrunc40(n), v))
 		}
 	}
 	if final {
@@ -188,14 +188,14 @@ func (e *c04env) check(final bool) {
 		for n, b := range begun {
 			d := done[n]
 			v := vals[n]
-			if satAdd(v, pend[n]) < d || v > b {
-				e.violate("lost-or-extra", fmt.Sprintf("counter %q: value %d (+%d pending in survivors); completed adds %d, begun %d", trunc40(n), v, pend[n], d, b))
+			if vfSatAdd(v, pend[n]) < d || v > b {
+				e.violate("lost-or-extra", fmt.Sprintf("counter %q: value %d (+%d pending in survivors); completed adds %d, begun %d", vfTrunc40(n), v, pend[n], d, b))
 			}
 		}
 	}
 }
 
-func allZero(b []byte) bool {
+func vfAllZero(b []byte) bool {
 	for _, c := range b {
 		if c != 0 {
 			return false
@@ -204,8 +204,8 @@ func allZero(b []byte) bool {
 	return true
 }
 
-// collidingNames returns k distinct names that share one hash bucket.
-func collidingNames(r *verifrt.Rand, k int, length int) []string {
+// vfCollidingNames returns k distinct names that share one hash bucket.
+func vfCollidingNames(r *verifrt.Rand, k int, length int) []string {
 	var out []string
 	want := uint32(r.Intn(verifref.NumHash))
 	for i := 0; len(out) < k && i < 1000000; i++ {
@@ -237,7 +237,7 @@ func c04Program(r *verifrt.Rand, kind int) c04prog {
 		p.Name = "colliding-big"
 		p.PreFill = 3
 		l := 3800 + r.Intn(200)
-		p.Names = collidingNames(r, 4, l)
+		p.Names = vfCollidingNames(r, 4, l)
 		for i := 0; i < 3; i++ {
 			n := fmt.Sprintf("pfill/%d/", i)
 			p.Names = append(p.Names, n+strings.Repeat("g", l-len(n)))
@@ -247,7 +247,7 @@ func c04Program(r *verifrt.Rand, kind int) c04prog {
 		p.Names = []string{"shared/counter"}
 	case 1:
 		p.Name = "colliding-names"
-		p.Names = collidingNames(r, 3, 0)
+		p.Names = vfCollidingNames(r, 3, 0)
 	case 2:
 		p.Name = "extend-race"
 		p.PreFill = 3
@@ -268,7 +268,7 @@ func c04Program(r *verifrt.Rand, kind int) c04prog {
 		p.Names = []string{"a/first", "b/second"}
 	default:
 		p.Name = "mixed"
-		p.Names = append(collidingNames(r, 2, 0), "plain/x", "big/"+strings.Repeat("M", 4000))
+		p.Names = append(vfCollidingNames(r, 2, 0), "plain/x", "big/"+strings.Repeat("M", 4000))
 		p.PreFill = r.Intn(4)
 	}
 	p.PreOpen = p.Name != "concurrent-create"
@@ -306,7 +306,7 @@ func runC04(res *verifrt.Result, base string, p c04prog, st c03strategy, rnd *ve
 	now := time.Date(2024, 3, 4, 10, 0, 0, 0, time.UTC)
 	CounterTime = func() time.Time { return now }
 	munmap = func(d *mmap.Data) error { return e.q.Unmap(d.Data, "unmap") }
-	trapExit()
+	vfTrapExit()
 	for range p.Procs {
 		e.procs = append(e.procs, &c04proc{f: &file{}, ctrs: map[int]*Counter{}, begun: map[int]uint64{}, done: map[int]uint64{}})
 	}
@@ -408,7 +408,7 @@ func runC04(res *verifrt.Result, base string, p c04prog, st c03strategy, rnd *ve
 					pr.begun[op.Name] += 0 // the record may appear from here on
 					v, m1, err := pr.m.newCounter(p.Names[op.Name])
 					if err != nil {
-						pr.err = fmt.Sprintf("newCounter(%q): %v", trunc40(p.Names[op.Name]), err)
+						pr.err = fmt.Sprintf("newCounter(%q): %v", vfTrunc40(p.Names[op.Name]), err)
 						continue
 					}
 					if m1 != nil {
@@ -427,7 +427,7 @@ func runC04(res *verifrt.Result, base string, p c04prog, st c03strategy, rnd *ve
 	s.OnStep = func(s *verifrt.Sched, t *verifrt.Thread) {
 		if k := p.KillAt[t.ID]; k > 0 && t.Steps >= k && !t.Done && !t.Killed {
 			s.Kill(t)
-			res.Hit("killed@" + pointClass(t.Pt))
+			res.Hit("killed@" + vfPointClass(t.Pt))
 		}
 		if e.path == "" {
 			ents, _ := os.ReadDir(telemetry.Default.LocalDir())
@@ -466,8 +466,8 @@ func runC04(res *verifrt.Result, base string, p c04prog, st c03strategy, rnd *ve
 	return e, s
 }
 
-// pointClass strips ordinals so that coverage classes are stable.
-func pointClass(pt string) string {
+// vfPointClass strips ordinals so that coverage classes are stable.
+func vfPointClass(pt string) string {
 	parts := strings.Split(pt, ":")
 	if len(parts) == 3 {
 		return parts[0] + ":" + parts[2]
@@ -523,7 +523,7 @@ func TestVerifC04(t *testing.T) {
 	total := verifrt.Scale(2400, 100000)
 	per := (total + nb - 1) / nb
 	verifrt.RunBatches("TestVerifC04", res, nb, 0, 40*time.Minute, "c04.death", func(b int, r *verifrt.Result, cur *verifrt.Current) {
-		base := vtmp("c04-")
+		base := vfVtmp("c04-")
 		defer os.RemoveAll(base)
 		lo, hi := verifrt.CaseRange(check, b, per)
 		for i := lo; i < hi; i++ {
@@ -619,16 +619,16 @@ func TestVerifC04(t *testing.T) {
 				bad := false
 				for _, t := range s.Threads {
 					if t.Panic != nil && !t.Killed {
-						sig := "panic:" + topFrame(t.Stack)
+						sig := "panic:" + vfTopFrame(t.Stack)
 						if ep, ok := t.Panic.(verifrt.ExitPanic); ok {
 							// the file is healthy by construction (only crashes and
 							// other processes' progress): nothing may be judged corrupt
-							sig = fmt.Sprintf("survivor-exit-%d:counter-bug-on-healthy-file:%s", ep.Code, exitFrame(t.Stack))
+							sig = fmt.Sprintf("survivor-exit-%d:counter-bug-on-healthy-file:%s", ep.Code, vfExitFrame(t.Stack))
 						} else if addr, ok := verifrt.FaultAddr(t.Panic); ok {
 							if _, ok := e.q.Find(addr); ok {
-								sig = "stale-mapping-access:" + topFrame(t.Stack)
+								sig = "stale-mapping-access:" + vfTopFrame(t.Stack)
 							} else {
-								sig = "fault:" + topFrame(t.Stack)
+								sig = "fault:" + vfTopFrame(t.Stack)
 							}
 						}
 						c04Violate(r, sig, fmt.Sprintf("process %s panicked (program %s): %v\n%.1500s", t.Name, p.Name, t.Panic, t.Stack), replay)
@@ -645,7 +645,7 @@ func TestVerifC04(t *testing.T) {
 				e.check(true)
 				if e.viol != "" {
 					if e.violData != nil {
-						replay["input"] = saveInput(r, "C04", e.violData)
+						replay["input"] = vfSaveInput(r, "C04", e.violData)
 					}
 					c04Violate(r, e.violSig, e.viol+" (program "+p.Name+")", replay)
 					break
@@ -659,7 +659,7 @@ func TestVerifC04(t *testing.T) {
 					}
 					for ci, c := range pr.ctrs {
 						if x := counterStateBits(c.state.bits.Load()).extra(); x != 0 {
-							c04Violate(r, "survivor-unpersisted", fmt.Sprintf("surviving process P%d could not persist %d of counter %q (program %s)", pi, x, trunc40(p.Names[ci]), p.Name), replay)
+							c04Violate(r, "survivor-unpersisted", fmt.Sprintf("surviving process P%d could not persist %d of counter %q (program %s)", pi, x, vfTrunc40(p.Names[ci]), p.Name), replay)
 						}
 					}
 				}
